@@ -649,6 +649,14 @@ def _substitute_once(fn, name):
             for i, st in enumerate(block):
                 if isinstance(st, ast.Assign) and len(st.targets) == 1 and isinstance(st.targets[0], ast.Name) and st.targets[0].id == name:
                     expr = st.value
+                    # `t = <anything>` immediately followed by `x = t`: a pure renaming of the target, always safe
+                    if i + 1 < len(block):
+                        nxt = block[i + 1]
+                        if isinstance(nxt, ast.Assign) and isinstance(nxt.value, ast.Name) and nxt.value.id == name and not any(
+                                isinstance(n, ast.Name) and n.id == name for t_ in nxt.targets for n in ast.walk(t_)):
+                            nxt.value = expr
+                            del block[i]
+                            return True
                     if not _side_effect_free(expr):
                         return False
                     reads = {n.id for n in ast.walk(expr) if isinstance(n, ast.Name)}
@@ -693,6 +701,43 @@ def _substitute_once(fn, name):
     return False
 
 
+def append_loops_to_comprehensions(tree):
+    """L = []; for x in IT: L.append(E)   ->   L = [E for x in IT]      (also with a single `if c:` around the append)"""
+    count = 0
+    for node in ast.walk(tree):
+        for field in ("body", "orelse", "finalbody"):
+            block = getattr(node, field, None)
+            if not isinstance(block, list):
+                continue
+            i = 0
+            while i + 1 < len(block):
+                a, b = block[i], block[i + 1]
+                ok = isinstance(a, ast.Assign) and len(a.targets) == 1 and isinstance(a.targets[0], ast.Name) \
+                    and ((isinstance(a.value, ast.List) and not a.value.elts) or (isinstance(a.value, ast.Call) and isinstance(a.value.func, ast.Name) and a.value.func.id == "list" and not a.value.args)) \
+                    and isinstance(b, ast.For) and not b.orelse and len(b.body) == 1
+                if ok:
+                    name = a.targets[0].id
+                    inner = b.body[0]
+                    conds = []
+                    if isinstance(inner, ast.If) and not inner.orelse and len(inner.body) == 1:
+                        conds = [inner.test]
+                        inner = inner.body[0]
+                    is_append = isinstance(inner, ast.Expr) and isinstance(inner.value, ast.Call) and isinstance(inner.value.func, ast.Attribute) and inner.value.func.attr == "append" \
+                        and isinstance(inner.value.func.value, ast.Name) and inner.value.func.value.id == name and len(inner.value.args) == 1 and not inner.value.keywords
+                    uses_self = is_append and any(isinstance(n, ast.Name) and n.id == name for n in ast.walk(inner.value.args[0])) or any(isinstance(n, ast.Name) and n.id == name for c in conds for n in ast.walk(c)) \
+                        or any(isinstance(n, ast.Name) and n.id == name for n in ast.walk(b.iter))
+                    if is_append and not uses_self:
+                        comp = ast.ListComp(elt=inner.value.args[0], generators=[ast.comprehension(target=b.target, iter=b.iter, ifs=conds, is_async=0)])
+                        block[i] = ast.copy_location(ast.Assign(targets=[ast.Name(id=name, ctx=ast.Store())], value=comp, lineno=a.lineno), a)
+                        del block[i + 1]
+                        count += 1
+                        continue
+                i += 1
+    if count:
+        ast.fix_missing_locations(tree)
+    return count
+
+
 def normalise(tree):
     pinned = pinned_functions()
     if pinned is None:
@@ -704,8 +749,9 @@ def normalise(tree):
     af = _AttrFold()
     af.visit(tree)
     ast.fix_missing_locations(tree)
+    comps = append_loops_to_comprehensions(tree)
     temps = inline_new_temporaries(tree, pinned_table())
-    return tree, {"inlined": inl.inlined, "kept": inl.kept, "removed": getattr(inl, "removed", []), "unrolled": n1 + n2, "getattr_folded": af.count, "temporaries_inlined": temps}
+    return tree, {"inlined": inl.inlined, "kept": inl.kept, "removed": getattr(inl, "removed", []), "unrolled": n1 + n2, "getattr_folded": af.count, "append_loops": comps, "temporaries_inlined": temps}
 
 
 def unroll(tree, model_tables):
